@@ -60,7 +60,7 @@ CHECKS = {
  "C07": dict(level="exploration", design="DESIGN.md §7 C07",
    technique="exhaustive enumeration of unknown-field insertions over every corpus value tree; reference-decoded comparison of re-marshaled bytes",
    text="Every encoding variant carrying unknown fields (7 shapes x every position, nested levels, all runtimes; default generation and enableunsafedecode=true): generated Unmarshal then Size/Marshal; reference decode of the output must show the same unknown bytes in order and the same known tree; Size == len(Marshal); second round trip is a fixed point.",
-   note="Inputs the generated Unmarshal rejects are C06/C08's business."),
+   note="An input that is rejected although the same message without the unknown fields is accepted is a violation here; other rejections are C06/C08 business."),
  "C10": dict(level="exploration", design="DESIGN.md §7 C10",
    technique="exhaustive corpus enumeration with buffer-clobber histories (complement, zero, reuse) and snapshot comparison; lazyproto clause decided by the C14/C15 explorations",
    text="Every corpus type x runtime x value tree (+ unknown-field variant): generated Unmarshal (default options, and the explicit option enableunsafedecode=false, whose generated code must equal the default or pass the same check) from a private buffer, snapshot of the decoded tree, then the buffer is overwritten with its complement, zeroed, and recycled for another decode; the tree must stay equal to the snapshot. lazyproto clause: 18 messages x {Decoder.Decode safe mode, Decode()} x {complement, zero, recycled buffer}: all 26 accessors and NestedResults/NestedResult decoded lazily after the clobber must still give the original values (C14/C15 additionally clobber the buffer in every explored history/schedule).",
